@@ -74,6 +74,15 @@ CLAIMED = {
         "and the image compared with enum_adm; corrected vectors must be fixed points.",
    note=BASE + "F5 (zero selection choices) fixed by 305cac2. Known findings K7, K8.",
    technique="Coq theorems about an extracted Gallina model + differential correspondence with the implementation", design="§6 C14"),
+ 'C17': dict(
+   text="Theorems: Obj only with a direction and a sound permanence flag, Con only with direction and reference, declared NONE is "
+        "unused, the declared role decides when both are possible, undeclared/either is ambiguous (error); a node whose flag "
+        "passes in_every_arch is reached under every admissible assignment, hence flagged objectives exist in every "
+        "architecture; evaluate returns one value per objective/constraint in classification order: given value, NaN when "
+        "missing, the reference value for an absent constraint node. objectives/constraints/errors and evaluate outputs are "
+        "compared with the extracted functions.",
+   note=BASE + "Permanence flags are read from the implementation (it follows automatically resolved choices); the model decides their soundness per node.",
+   technique="Coq theorems about an extracted Gallina model + differential correspondence with the implementation", design="§6 C17"),
 }
 NA_REASON = "machinery under construction in this round; not yet claimed"
 
